@@ -132,6 +132,12 @@ func (l *Listener) Wait(ctx context.Context) error {
 	// we wait either until the channel got closed or the context is done
 	select {
 	case <-l.channel:
+		// if the listener was deregistered in the meantime, the closed channel does not prove that it was notified
+		// while it was still registered (the select picks randomly between several ready channels)
+		if l.deregistered.Load() {
+			return ErrListenerDeregistered
+		}
+
 		return nil
 	case <-l.deregisteredChan:
 		return ErrListenerDeregistered
